@@ -7,4 +7,5 @@ INVARIANT DisconnectAlwaysPossible
 INVARIANT ReconnectPossible
 PROPERTY DisconnectIdempotent
 PROPERTY RefusedLeavesDisconnected
+PROPERTY ResetKeepsTheFlag
 CHECK_DEADLOCK FALSE
